@@ -18,7 +18,8 @@ reg("C12", harness="c12_gf", level="exploration", deadline=(60, 300),
     technique="complete enumeration of a finite domain (all operand pairs/triples/table entries) against a bit-serial reference",
     level_text="The domain is finite (2^16 pairs, 2^24 triples, 256 constants x 32 entries, 256 GFNI matrices x 256 bytes) and is "
                "enumerated completely on the real gf_mul/gf_inv/gf_vect_mul_init/ec_init_tables code in the default and "
-               "GF_LARGE_TABLES builds; exhaustive:true means exactly that.",
+               "GF_LARGE_TABLES builds; exhaustive:true means exactly that. ec_init_tables grids reach k = 1024 and include rows with few distinct, "
+               "constant and local-parity (zeros then ones) coefficients.",
     level_note="trusted: the 20-line shift-and-xor reference multiply (ref/ref_gf.h) and, for GFNI, the SDM definition of GF2P8AFFINEQB "
                "(software model cross-checked with the real instruction on this host)",
     runs={"quick": [dict(flavour="sim"), dict(flavour="lgt")], "thorough": [dict(flavour="sim"), dict(flavour="lgt"), dict(flavour="rel")]},
@@ -52,9 +53,10 @@ reg("C20", harness="c20_zero", level="exploration", deadline=(120, 900),
                "(thorough 0..1100), 65 placements, every position of a single non-zero byte with 3 (thorough: up to 255) values; the region is "
                "flush against inaccessible pages so an out-of-range read faults, and neighbours are non-zero. Dense families on the same "
                "(variant, length, placement) grid: zeros + non-zero suffix, non-zero prefix + zeros, sliding 64- and 128-byte non-zero windows, "
-               "every start, fill ff/01/80 (every byte lane of a vector block non-zero at once). Huge part: regions of 2^32-1 .. 2^32+16 MiB bytes "
+               "every start, fill ff/01/80 (every byte lane of a vector block non-zero at once); cancelling pairs: a 1/2/4/8-byte word with one non-zero byte "
+               "repeated or two's-complement negated at distance W, 2W, 16..128 at every offset (add / sub / xor accumulation would cancel). Huge part: regions of 2^32-1 .. 2^32+16 MiB bytes "
                "(zero-page-backed mapping), all-zero and single non-zero bytes at the end / just beyond 4 GiB / in the middle, per variant.",
-    level_note="lengths between N and 2^32-1 and multi-byte patterns other than runs (suffix/prefix/window) are not enumerated",
+    level_note="lengths between N and 2^32-1 and multi-byte patterns other than runs (suffix/prefix/window) and cancelling pairs are not enumerated",
     runs=[dict(flavour="sim", part="sweep"), dict(flavour="sim", part="huge")],
     rule="case = (implementation, len, placement); for each: all-zero must give 0, a single non-zero byte at EVERY offset with each value "
          "and every member of the dense run families must give non-zero, with no access outside the region; distinct_nontrivial counts distinct (implementation, len) pairs completed; evaluations counts calls.")
@@ -80,7 +82,8 @@ reg("C03", harness="c03_ec", level="exploration", deadline=(240, 1500),
     level_text="For each of the 46 dot-product/encode symbols and the dispatched ec_encode_data/gf_vect_dot_prod under 7 simulated CPU levels: "
                "(a) every len minlen..320 (thorough ..1100) x 64 source offsets x 5 destination offsets + end-flush placement at k=3, (b) 38 "
                "source counts up to 255, (c) rows 1..13 for the high-level entries, (d) all 256 coefficients x all 256 byte values through the "
-               "kernel's main loop and tail; outputs compared byte for byte with an independent GF(2^8) matrix product, sources read-only or "
+               "kernel's main loop and tail, (f) sparse sources: one source zero except a window of 1/8/24/32/64 bytes at every offset, the others zero or dense; "
+               "outputs compared byte for byte with an independent GF(2^8) matrix product, sources read-only or "
                "compared, canaries and inaccessible pages around every buffer.",
     level_note="the full 5-way product is not claimed; the sub-products decide all data only under the no-data-dependent-branch assumption "
                "(kernels are linear maps); trusted: ref/ref_gf.h.",
@@ -94,7 +97,7 @@ reg("C13", harness="c13_update", level="exploration", deadline=(240, 1500),
     level_text="For each of the 43 multiply-accumulate/update symbols and the dispatched ec_encode_data_update/gf_vect_mad under 7 CPU levels: every "
                "length minlen..320 (thorough ..1100) with accumulate onto non-zero parity at 17 placements, ALL k! update orders for k=1..6 (873 "
                "histories x 3 lengths) each ending with a doubled update that must cancel, k in {10,32,255} in three orders, rows 1..13, the "
-               "full 256x256 multiplication table; gf_vect_mul_{base,sse,avx,dispatched} for every len 0..700 (2200). Parity is compared with "
+               "full 256x256 multiplication table, sparse sources (zero except a window of 1/8/24/32/64 bytes at every offset); gf_vect_mul_{base,sse,avx,dispatched} for every len 0..700 (2200). Parity is compared with "
                "the reference after EVERY step of every history.",
     level_note="orders for k>6 are three designed ones; data-independence rests on the linearity assumption (dense xorshift data). trusted: ref/ref_gf.h",
     runs=[dict(flavour="sim")],
@@ -107,7 +110,8 @@ reg("C08", harness="c08_raid", level="exploration", deadline=(300, 1500),
     level_text="Every RAID variant (13 direct symbols + 4 dispatched entries under 6 CPU levels): generation for vects=min..6 at every admissible "
                "length 0..600 (1200) in 3 placements with dense data and a unit impulse at every byte of every source (len<=256), vects up to 257; "
                "checks: consistent arrays give 0 and EVERY single-byte corruption (3 values) of EVERY vector incl. P and Q is reported for "
-               "len<=256 (600); below-minimum vects with unmapped arrays must be refused without a fault; every pair of lost data blocks is "
+               "len<=256 (600), plus two-byte corruptions (first/last data, P, Q x same/other vector x distance 0,1,8,16,32,48,64,128 x equal or different deltas, "
+               "the reference deciding per position whether the arrays are still consistent); below-minimum vects with unmapped arrays must be refused without a fault; every pair of lost data blocks is "
                "rebuilt from generated P/Q for vects<=10.",
     level_note="parity is GF(2)-linear in the sources: impulses + dense data decide all data under the no-data-dependent-branch assumption; "
                "trusted: ref/ref_gf.h (Q = Horner in 2 over 0x11D).",
@@ -119,7 +123,8 @@ reg("C08", harness="c08_raid", level="exploration", deadline=(300, 1500),
 reg("C09", harness="c09_invert", level="exploration", deadline=(300, 1800),
     technique="bounded-exhaustive enumeration of matrix families, generator (m,k) pairs, survivor sets and parity-block minors against an independent rank/inverse",
     level_text="gf_invert_matrix on all 1x1, all 2x2 over a 16-element sub-alphabet (thorough: the full field, 2^32), all 3x3 over {0..3}, all 4x4 "
-               "(thorough 5x5) over {0,1}, all scaled permutation matrices n<=6, rank-deficient constructions up to n=128; both generators for "
+               "(thorough 5x5) over {0,1}, all scaled permutation matrices n<=6, rank-deficient constructions up to n=512, wide cyclic-shift families up to n=255 and "
+               "n = 256, 257, 300, 520 (n is an int; zero pivots at every search distance); both generators for "
                "every (m,k), m<=255(256); Cauchy: every survivor set for m<=16 (20), all 1-,2-(3-)erasure minors for m in {64,128,255,256}, "
                "thorough all ~10^9 2x2 minors; Vandermonde: the documented safe table decided completely by enumerating every minor of its "
                "parity block; end-to-end encode/erase/invert/re-encode for all patterns m<=10 (12).",
@@ -270,7 +275,7 @@ reg("C19", harness="c19_headers", level="model_checking", deadline=(300, 1500), 
                "header field combinations are compared byte for byte with an independent RFC 1952/1950 producer (itself cross-checked with zlib's "
                "inflateGetHeader); too-small output must return the required size and leave stream and buffer untouched. Readers: for every "
                "header of a field product the state graph of the real isal_read_gzip_header under ALL chunk sequences from {0,1,2,rest} and 7 "
-               "buffer-size modes x 2 growth policies (overflow -> larger buffer keeping delivered bytes -> resume) is explored; recovered fields, "
+               "buffer-size modes plus every proper subset of fields discarded (NULL) while the others are collected x 2 growth policies (overflow -> larger buffer keeping delivered bytes -> resume) is explored; recovered fields, "
                "stop position and statuses are checked; zlib reader under every composition of the header; all byte strings up to length 3 as headers.",
     level_note="field values outside the product and chunk sizes outside {0,1,2,rest} are not covered; trusted: ref/ref_hdr.h",
     runs=[dict(flavour="sim", part="writer"), dict(flavour="sim", part="reader")],
@@ -328,7 +333,8 @@ reg("C15", harness="c15_reentrant", level="model_checking", deadline=(480, 2400)
                "the serial value, the final slots must equal the serial selection, nothing but dispatch slots may be written. (a) right after implementation "
                "selection - before the first data-plane call of the process, so lazily built state is caught too - the "
                "library's writable segment is made read-only and the whole battery + extra workload runs at 7 CPU levels. (c) contexts, level "
-               "buffers, outputs and decoder states pre-filled with 5 patterns give identical results; inflate (both APIs, 3 kernels) on the stale-decode-"
+               "buffers, outputs and decoder states pre-filled with 5 patterns give identical results, with a dictionary (set_dict and process_dict+reset_dict, 3 lengths) "
+               "also the caller's struct isal_dict, 6 patterns; inflate (both APIs, 3 kernels) on the stale-decode-"
                "table fault streams gives the same verdict and output on states pre-filled with 5 patterns and on states left behind by decoding a "
                "valid sibling stream (then reset / re-init). (d) every operation history of depth <= 2 "
                "(3) over 21 operations followed by reset or init behaves like a fresh context.",
